@@ -2397,8 +2397,12 @@ impl Melda {
                 b_packs = Some(
                     packs
                         .iter()
-                        .map(|p| p.as_str().unwrap().to_string())
-                        .collect(),
+                        .map(|p| {
+                            p.as_str()
+                                .map(|p| p.to_string())
+                                .ok_or_else(|| anyhow!("pack_reference_not_a_string"))
+                        })
+                        .collect::<Result<_>>()?,
                 );
             }
         }
